@@ -34,7 +34,7 @@ W == Wallets(cfg)
 
 Init == /\ cfg \in Cfgs /\ rank \in RankSet(cfg.n)
         /\ order = [w \in Wallets(cfg) |-> <<>>] /\ phase = "setup" /\ script = NoScript
-        /\ s = InitS(cfg) /\ hand = 0 /\ pushedSig = {} /\ proposed = NoBody
+        /\ s = InitS(cfg) /\ hand = 0 /\ pushedSig = <<>> /\ proposed = NoBody
 
 Create == /\ phase = "setup"
           /\ \E w \in W, p \in PermSet(cfg.n) : order[w] = <<>> /\ order' = [order EXCEPT ![w] = p]
@@ -48,11 +48,20 @@ Fund == /\ phase = "setup" /\ \A w \in W : order[w] # <<>>
         /\ \E k \in Knows(cfg) : cfg' = [cfg EXCEPT !.knows = k]
         /\ UNCHANGED <<s, hand, pushedSig, proposed>>
 \* two bodies stand for the proposer's freedom (locktime 0 or block height, final or replaceable sequence, ...)
-Bodies == {[NoBody EXCEPT !.locktime = <<0>>]} \cup (IF cfg.n <= 3 THEN {[NoBody EXCEPT !.locktime = <<1>>]} ELSE {})
+\* ... and for spends with one or (small groups) two inputs
+Bodies == {[NoBody EXCEPT !.locktime = <<0>>, !.ins = <<1>>]}
+          \cup (IF cfg.n <= 3 /\ cfg.m = 2 THEN {[NoBody EXCEPT !.locktime = <<1>>, !.ins = <<1, 2>>]} ELSE {})
 Propose == /\ phase = "funded" /\ \E w \in W, b \in Bodies : s' \in A_Propose(cfg, s, w, b) /\ proposed' = b
            /\ UNCHANGED <<cfg, rank, order, phase, script, hand, pushedSig>>
 Sign == /\ phase = "funded" /\ \E w \in W : s' \in A_Sign(cfg, s, w) /\ s' # s
         /\ UNCHANGED <<cfg, rank, order, phase, script, hand, pushedSig, proposed>>
+\* uneven signing: one input only, with the wallet's own key or with a key handed to it
+SignPart == /\ phase = "funded"
+            /\ \E w \in W : \E i \in Inputs(s.copy[w]) :
+                  \/ s' \in A_SignIn(cfg, s, w, {i})
+                  \/ \E k \in 1..cfg.n : s' \in A_SignKey(cfg, s, w, k, {i})
+            /\ s' # s /\ Len(proposed.ins) > 1
+            /\ UNCHANGED <<cfg, rank, order, phase, script, hand, pushedSig, proposed>>
 HandOff == /\ phase = "funded" /\ hand < MaxHandoffs
            /\ \E w, v \in W, f \in Forms : s' \in A_HandOff(cfg, s, w, v, f, {})
            /\ hand' = hand + 1 /\ UNCHANGED <<cfg, rank, order, phase, script, pushedSig, proposed>>
@@ -64,10 +73,9 @@ SendOk == /\ phase = "funded"
 SendRefused == /\ phase = "funded"
                /\ \E w \in W : s.copy[w].has /\ ~SendPushes(cfg, s, w) /\ s' \in A_Send(cfg, s, w)
                /\ UNCHANGED <<cfg, rank, order, phase, script, hand, pushedSig, proposed>>
-Next == Create \/ Fund \/ Propose \/ Sign \/ HandOff \/ HandOffRefused \/ SendOk \/ SendRefused
+Next == Create \/ Fund \/ Propose \/ Sign \/ SignPart \/ HandOff \/ HandOffRefused \/ SendOk \/ SendRefused
 Spec == Init /\ [][Next]_vars
 
-Holders(B) == {cfg.holder[w] : w \in B}
 \* all wallets created so far derive one and the same script: the n keys in rank order with threshold m
 Agreement == \A w \in W : order[w] # <<>> => ScriptOf(cfg, order[w], rank) = TheScript(cfg, rank)
 FundedScript == phase = "funded" => script = TheScript(cfg, rank)
@@ -75,29 +83,35 @@ FundedScript == phase = "funded" => script = TheScript(cfg, rank)
 FundAgrees == [][(phase = "setup" /\ phase' = "funded") => \A w \in W : ScriptOf(cfg, order[w], rank) = TheScript(cfg, rank)]_vars
 \* a copy is valid exactly when at least m distinct cosigners signed on the chain that led to it - in any order,
 \* through any chain of hand-offs
-ValidIffMDistinctSigners == \A w \in W : Valid(cfg, s.copy[w]) <=> (s.copy[w].has /\ Cardinality(Holders(s.by[w])) >= cfg.m)
-NoForgery == \A w \in W : s.copy[w].signed \subseteq Holders(s.by[w])
-PushedOnlyValid == (s.pushed => Cardinality(pushedSig) >= cfg.m) /\ (~s.pushed => pushedSig = {})
+\* - for EVERY input
+ValidIffMDistinctSigners == \A w \in W : Valid(cfg, s.copy[w]) <=>
+                                (s.copy[w].has /\ \A i \in Inputs(s.copy[w]) : Cardinality(s.by[w][i]) >= cfg.m)
+NoForgery == \A w \in W : \A i \in Inputs(s.copy[w]) : s.copy[w].signed[i] \subseteq s.by[w][i]
+\* one input with fewer than m signers keeps the spend invalid, wherever that input stands and however many signed the others
+OneIncompleteInputSuffices == \A w \in W : (\E i \in Inputs(s.copy[w]) : Cardinality(s.copy[w].signed[i]) < cfg.m) => ~Valid(cfg, s.copy[w])
+PushedOnlyValid == (s.pushed => pushedSig # <<>> /\ \A i \in 1..Len(pushedSig) : Cardinality(pushedSig[i]) >= cfg.m)
+                   /\ (~s.pushed => pushedSig = <<>>)
 \* a refused broadcast leaves everything as it was
 RefusedIsNoop == \A w \in W : (s.copy[w].has /\ ~Valid(cfg, s.copy[w])) => A_Send(cfg, s, w) = {s}
 \* no hand-off loses, adds or duplicates a signature: validity is preserved; only the network serialization of an
 \* over-complete copy drops the signatures CHECKMULTISIG has no use for
 HandOffKeeps == \A w, v \in W, f \in Forms : \A s2 \in A_HandOff(cfg, s, w, v, f, {}) :
                     /\ Valid(cfg, s2.copy[v]) = Valid(cfg, s.copy[w])
-                    /\ s2.copy[v].signed \subseteq s.copy[w].signed
-                    /\ (f # "raw" \/ NSig(s.copy[w]) <= cfg.m) => s2.copy[v].signed = s.copy[w].signed
+                    /\ \A i \in Inputs(s.copy[w]) : s2.copy[v].signed[i] \subseteq s.copy[w].signed[i]
+                    /\ (f # "raw" \/ \A i \in Inputs(s.copy[w]) : Cardinality(s.copy[w].signed[i]) <= cfg.m)
+                          => s2.copy[v].signed = s.copy[w].signed
 \* whatever the importing wallet knows: unless it may refuse, it gets the copy, can add its signature, and the result is
 \* valid as soon as m distinct cosigners have signed (an offline signer is a full cosigner)
 OfflineSignerSuffices ==
     \A w, v \in W, f \in Forms : (s.copy[w].has /\ w # v /\ ~MayRefuse(cfg, v, f)) =>
         /\ A_HandOff(cfg, s, w, v, f, {}) # {}
         /\ \A s2 \in A_HandOff(cfg, s, w, v, f, {}) : \A s3 \in A_Sign(cfg, s2, v) :
-              Cardinality(s.copy[w].signed \cup {cfg.holder[v]}) >= cfg.m => Valid(cfg, s3.copy[v])
+              (\A i \in Inputs(s.copy[w]) : Cardinality(s.copy[w].signed[i] \cup {cfg.holder[v]}) >= cfg.m) => Valid(cfg, s3.copy[v])
 \* the named deviation is exactly what breaks this: it is enabled nowhere in the model
 \* every copy, wherever it travelled, is the transaction that was proposed: what the signatures commit to never changes
 CommitmentPreserved == \A w \in W : s.copy[w].has => s.copy[w].body = proposed /\ proposed \in Bodies
 \* a broadcast is final; signing by w only ever adds the signature of the key w holds
 PushedStable == [][s.pushed => s'.pushed]_vars
 SigningOnlyAdds == [][\A w \in W : s' \in A_Sign(cfg, s, w) =>
-                         s'.copy[w].signed = s.copy[w].signed \cup {cfg.holder[w]}]_vars
+                         \A i \in Inputs(s.copy[w]) : s'.copy[w].signed[i] = s.copy[w].signed[i] \cup {cfg.holder[w]}]_vars
 =============================================================================
